@@ -23,6 +23,9 @@ EVIDENCE = VERIF / "evidence"
 CORPUS = VERIF / "corpus"
 
 warnings.filterwarnings("ignore")
+import logging  # noqa: E402
+
+logging.disable(logging.CRITICAL)  # the library logs warnings for inputs the generators produce on purpose
 
 # --------------------------------------------------------------------------------------------
 # strings and values
@@ -164,7 +167,27 @@ def canon(v, meth: str = ""):
             return {"d": sorted(v["d"])}
         if "l" in v and meth in SETLIKE:
             return {"l": sorted(set(map(tuple, v["l"])))}
+        if "l" in v and meth == "dups":
+            ents = set()
+            for e in v["l"]:
+                i = e.index(SEP)
+                j = e.index(SEP, i + 1)
+                a, b = sorted([tuple(e[:i]), tuple(e[i + 1:j])])
+                ents.add((a, b, tuple(e[j + 1:])))
+            return {"l": sorted(ents)}
     return v
+
+
+def _split_sep(x):
+    parts, cur = [], []
+    for c in x:
+        if c == SEP:
+            parts.append(cur)
+            cur = []
+        else:
+            cur.append(c)
+    parts.append(cur)
+    return parts
 
 
 def show_val(v) -> str:
@@ -175,7 +198,7 @@ def show_val(v) -> str:
     if "pr" in v:
         return repr((uncps(v["pr"][0]), uncps(v["pr"][1])))
     if "l" in v:
-        return repr([uncps(x) for x in v["l"]])
+        return repr(["|".join(uncps([c for c in part]) for part in _split_sep(x)) for x in v["l"]])
     if "r" in v:
         return "[" + "; ".join(show_record(r) for r in v["r"]) + "]"
     if "d" in v:
@@ -228,6 +251,25 @@ def impl_query(conv, step):
     return getattr(conv, m)(*args, strict=s, passthrough=p)
 
 
+SEP = 1114112  # separator inside listing entries; not a code point
+
+
+def jsonld_context(items) -> dict:
+    """The Python object denoted by protocol JSON-LD terms."""
+    ctx = {}
+    for k, v in items:
+        if "s" in v:
+            ctx[uncps(k)] = uncps(v["s"])
+        elif "pd" in v:
+            d = {"@prefix": True}
+            if v["pd"] is not None:
+                d["@id"] = uncps(v["pd"])
+            ctx[uncps(k)] = d
+        else:
+            ctx[uncps(k)] = v["o"]
+    return ctx
+
+
 class InvalidCase(RuntimeError):
     """The case is not a well-formed program (only shrinking can produce one)."""
 
@@ -238,15 +280,18 @@ def run_impl(steps: list[dict]) -> list:
     from curies import Converter
 
     slots: dict[int, Converter] = {}
+    attempted: set[int] = set()   # slots some earlier step tried to define (it may have raised)
     out = []
     for st in steps:
         op = st["op"]
-        for key in ("c", "src"):
-            if key in st and st[key] not in slots:
-                raise InvalidCase(f"slot {st[key]} does not exist")
-        for i in st.get("srcs", []):
-            if i not in slots:
-                raise InvalidCase(f"slot {i} does not exist")
+        needed = [st[key] for key in ("c", "src") if key in st] + list(st.get("srcs", []))
+        if any(i not in slots and i not in attempted for i in needed):
+            raise InvalidCase(f"a slot of {needed} is never defined")
+        if "dst" in st:
+            attempted.add(st["dst"])
+        if any(i not in slots for i in needed):
+            out.append({"bad": "no such slot"})   # its construction raised; the model says the same
+            continue
         try:
             if op == "init":
                 records = [dec_record(r) for r in st["records"]]
@@ -280,6 +325,36 @@ def run_impl(steps: list[dict]) -> list:
                 out.append(None)
             elif op == "q":
                 out.append(enc_val(impl_query(slots[st["c"]], st)))
+            elif op == "dups":
+                import curies.api as A
+
+                records = [dec_record(r) for r in st["records"]]
+                try:
+                    Converter(records)
+                    out.append({"l": []})
+                except A.DuplicateValueError as e:
+                    out.append({"l": [cps(d.record_1.prefix) + [SEP] + cps(d.record_2.prefix) + [SEP] + cps(d.prefix)
+                                      for d in e.duplicates]})
+            elif op == "load_pm":
+                slots[st["dst"]] = Converter.from_prefix_map(
+                    {uncps(k): uncps(v) for k, v in st["data"]}, delimiter=uncps(st.get("delim", [58])),
+                    strict=st.get("strict", True))
+                out.append(None)
+            elif op == "load_priority":
+                slots[st["dst"]] = Converter.from_priority_prefix_map(
+                    {uncps(k): [uncps(x) for x in v] for k, v in st["data"]})
+                out.append(None)
+            elif op == "load_reverse":
+                slots[st["dst"]] = Converter.from_reverse_prefix_map({uncps(k): uncps(v) for k, v in st["data"]})
+                out.append(None)
+            elif op == "load_jsonld":
+                slots[st["dst"]] = Converter.from_jsonld({"@context": jsonld_context(st["data"])})
+                out.append(None)
+            elif op == "load_upgrade":
+                slots[st["dst"]] = Converter(curies.upgrade_prefix_map({uncps(k): uncps(v) for k, v in st["data"]}))
+                out.append(None)
+            elif op == "upgrade":
+                out.append(enc_val(list(curies.upgrade_prefix_map({uncps(k): uncps(v) for k, v in st["data"]}))))
             else:
                 raise RuntimeError(f"unknown op {op}")
         except RuntimeError:
@@ -377,6 +452,14 @@ def show_program(steps) -> list[str]:
         elif op in ("remap_curie", "remap_uri", "rewire"):
             out.append(f"c{st['dst']} = {op}(c{st['src']}, "
                        f"{ {uncps(k): uncps(v) for k, v in st['mapping']} })")
+        elif op == "dups":
+            out.append(f"duplicates listed by Converter([{'; '.join(show_record(r) for r in st['records'])}])")
+        elif op in ("load_pm", "load_reverse", "load_upgrade", "upgrade"):
+            out.append(f"c{st.get('dst', '')} = {op}({ {uncps(k): uncps(v) for k, v in st['data']} })")
+        elif op == "load_priority":
+            out.append(f"c{st['dst']} = from_priority_prefix_map({ {uncps(k): [uncps(x) for x in v] for k, v in st['data']} })")
+        elif op == "load_jsonld":
+            out.append(f"c{st['dst']} = from_jsonld({{'@context': {jsonld_context(st['data'])!r}}})")
         elif op == "q":
             flags = ("" if not st.get("s") else ", strict=True") + ("" if not st.get("p") else ", passthrough=True")
             out.append(f"c{st['c']}.{st['m']}({', '.join(repr(uncps(a)) for a in st.get('a', []))}{flags})")
